@@ -243,7 +243,17 @@ func checkOne(c *core.Ctx, text string, hs, is gen.DataSpec, verbose bool) {
 				modeDep[i] = !eqS(sRef[i], sRef[0])
 			}
 			// oracle 2
-			if len(class) == 0 || c.Strict {
+			// (K01 also where the abrupt end of the comment is made by a branch, as in
+			// `<!--{{with .X}}>{{end}}`: the class is read off the author's rendering too)
+			abrupt := false
+			for _, cl := range textClasses(ref) {
+				if cl == "K01" {
+					abrupt = true
+				}
+			}
+			if abrupt && len(class) == 0 && !c.Strict {
+				c.Count("oracle2_excluded_by_known:K01 (in the rendering)", 1)
+			} else if len(class) == 0 || c.Strict {
 				c.Count("oracle2_compared", 1)
 				for i, m := range modes {
 					if modeDep[i] && !c.Strict {
